@@ -29,7 +29,7 @@ func TestVerifC13WritersRace(t *testing.T) {
 		R := minReplicas
 		for i := range plans {
 			for k := 0; k < 1+r.Intn(6); k++ {
-				op := c13Op{Op: []string{"add", "addw", "addr", "remove", "add"}[r.Intn(5)], Node: i, Arg: []int{0, 1, 20, 50, 100, 150}[r.Intn(6)]}
+				op := c13Op{Op: []string{"add", "addw", "addr", "remove", "add"}[r.Intn(5)], Node: i, Arg: []int{0, 1, 20, 50, 100, 150, -7}[r.Intn(7)]}
 				plans[i] = append(plans[i], op)
 			}
 			last := plans[i][len(plans[i])-1]
